@@ -41,7 +41,7 @@ def plan(tier):
     return [{"n": 1200, "i": i} for i in range(14)] + [{"bulk": 6000, "seed": 1}, {"bulk": 6000, "seed": 2}]
 
 
-KINDS = ["random", "random", "magic", "hdr-garbage", "crc-garbage", "crc-msgs", "hello", "hello", "hello-trunc", "hello-big",
+KINDS = ["random", "random", "magic", "hdr-garbage", "hdr-empty", "hdr-empty", "crc-garbage", "crc-msgs", "hello", "hello", "hello-trunc", "hello-big",
          "hello-badversion", "multi-hello", "hello-plus-app", "auth-255", "auth-frag", "auth-challenge", "auth-disconnect", "auth-garbage-msg"]
 SRC = ["pool", "pool", "pool", "spoof-honest", "blocked", "attacker-established"]
 
@@ -120,6 +120,9 @@ class Attacker(object):
         if kind == "hdr-garbage":
             body = ent.bytes(a % 400)
             return W.HDR.pack(W.MAGIC_TO_SERVER, t, 1 + a % 65535, 0, b, len(body) & 0xFFFF, cnt, 0) + body
+        if kind == "hdr-empty":
+            # a bare, well-formed header that announces an empty payload (optionally followed by a few trailer bytes)
+            return W.HDR.pack(W.MAGIC_TO_SERVER, t, 1 + a % 65535, a % 7, b, 0, [0, 0, 1, cnt][a % 4], 0) + ent.bytes([0, 4, 16, 20][a % 4])
         if kind == "crc-garbage":
             body = ent.bytes(a % 400)
             return W.build_datagram(True, t, 1 + a % 65535, 0, 0, b, [], crc=True, count=cnt, length=None) if not body else \
@@ -282,7 +285,7 @@ def body(ctx, c, bulk=0):
                     else:
                         addr = pool[(a if not bulk else ti * 12 + a) % len(pool)]
                         state = "temp" if addr in w.ctxt.temp_connections else "new"
-                    cls = (kind, b if kind in ("hdr-garbage", "crc-garbage", "crc-msgs") else None, cnt if kind in ("crc-msgs", "crc-garbage") else None, state)
+                    cls = (kind, b if kind in ("hdr-garbage", "hdr-empty", "crc-garbage", "crc-msgs") else None, cnt if kind in ("crc-msgs", "crc-garbage") else None, state)
                 d = d[:c["mtu"] + 512]
                 n_inj += 1
                 ctx.evaluations += 1
